@@ -14,7 +14,8 @@ EXPLANATION = (
     "errors; Folder::eval drops the previous module set before reloading; (R4) the offsets fed to replace_range in "
     "Workspace::change are UTF-8 byte offsets built as prefix sums of len_utf8 (units rule of C16); a full-text change "
     "replaces the document; (R5) the rename handler cannot panic on a binder kind the resolver produces (shared with "
-    "C18). Equality with a fresh server over all histories is not decided.")
+    "C18); (R6) DOC-SYNC - didOpen overwrites the tracked text, didClose forgets it, and every text read from disk is "
+    "tracked so that its diagnostics are reset. Equality with a fresh server over all histories is not decided.")
 TECHNIQUE = "static analysis: MIR must-pass-through rules on the LSP event loop + units inference"
 
 MUTATORS = ('Workspace::open', 'Workspace::close', 'Workspace::change')
@@ -234,7 +235,55 @@ def r4_change(c, facts):
     c.violations = [v for v in c.violations if not (v['key'].startswith('C15.U.') and ':floor:' in v['key'])]
 
 
+def r6_doc_sync(c, facts):
+    R = c.rule('C15.R6', 'DOC-SYNC: didOpen overwrites, didClose removes, and every text the server loads is tracked for the diagnostics reset')
+    op = c.anchor(R, 'oal_client::lsp::Workspace::open')
+    oidx = MF.defs_index(op)
+    ins = P.call_blocks(op, 'HashMap::insert')
+    merging = P.call_blocks(op, 'HashMap::entry', 'Entry::or_insert', 'Entry::or_insert_with', 'HashMap::try_insert')
+    if ins and not merging:
+        t = ins[0][1]
+        val = MF.slice_back(op, t['args'][2]['l'], oidx) if len(t['args']) > 2 and 'l' in t['args'][2] else {'locals': set()}
+        from_text = False
+        for l in val['locals'] | {t['args'][2].get('l')}:
+            for kind, bi, st in oidx.get(l, []):
+                if kind == 'assign' and st['rv']['r'] == 'use' and MF.field_path(st['rv']['op'])[-1:] == ['text']:
+                    from_text = True
+        if MF.field_path(t['args'][2])[-1:] == ['text']:
+            from_text = True
+        if from_text:
+            c.ok(R, {'Workspace::open': 'docs.insert(loc, text): the client buffer replaces whatever the server had'})
+        else:
+            c.bad(R, 'open-does-not-store-client-text', 'Workspace::open no longer stores the text sent by the client')
+    else:
+        c.bad(R, 'open-keeps-existing-entry', 'Workspace::open uses a non-overwriting insertion (%s): a document the server already loaded from disk keeps the disk text and the client buffer is dropped' % sorted({P.strip(callee_of(t)['def']).split('::')[-1] for b, t in merging} or {'no insert'}))
+    cl = c.anchor(R, 'oal_client::lsp::Workspace::close')
+    if P.call_blocks(cl, 'HashMap::remove'):
+        c.ok(R, {'Workspace::close': 'docs.remove(loc): the next load reads the saved file'})
+    else:
+        c.bad(R, 'close-does-not-forget', 'Workspace::close no longer removes the document: the closed (unsaved) buffer keeps shadowing the file on disk')
+    rf = c.anchor(R, 'oal_client::lsp::Workspace::read_file')
+    fs = P.call_blocks(rf, 'FileSystem::read_file')
+    stores = [b for b, t in P.call_blocks(rf, 'VacantEntry::insert', 'HashMap::insert', 'Entry::or_insert', 'Entry::or_insert_with', 'VacantEntry::<\'a, K, V>::insert')]
+    if not fs:
+        c.bad(R, 'read_file-no-disk-fallback', 'Workspace::read_file no longer falls back to the file system')
+    else:
+        arms = P.try_arms(rf, fs[0][0], fs[0][1])
+        start = arms[0] if arms else fs[0][1]['target']
+        if stores and not P.success_return_reachable(rf, start, stores):
+            c.ok(R, {'Workspace::read_file': 'a text read from disk becomes a tracked document (its diagnostics are reset by the next refresh)'})
+        else:
+            c.bad(R, 'loaded-text-not-tracked', 'Workspace::read_file returns a text read from disk without recording it in docs: diagnostics published for that file are never cleared once it is clean again')
+    # a tracked document wins over the disk: the occupied arm returns the stored text without touching the file system
+    ch = c.anchor(R, 'oal_client::lsp::Workspace::change')
+    if P.call_blocks(ch, 'HashMap::get_mut'):
+        c.ok(R, {'Workspace::change': 'edits the tracked text in place'})
+    else:
+        c.bad(R, 'change-not-in-place', 'Workspace::change no longer edits the tracked document in place')
+
+
 def run(c, facts):
+    c.run(r6_doc_sync, facts)
     c.run(r1_set_stale, facts)
     c.run(r2_refresh_first, facts)
     c.run(r3_reset_all, facts)
